@@ -24,14 +24,16 @@ RULE = (
     "0.5/1.5/none/-1} x {no grid, periodic grid} and three time axes (one passing through 0); "
     "plus random histories (d=1..3, 1..8 frames, births, deaths, empty frames, splitting, member "
     "reordering, wrap-around, negative/non-uniform times; members spherical, diffuse (width None/0/x) or perturbed 2-D/3-D), histories with overlapping droplets "
-    "(partition clause only) and adversarial drifts across periodic boundaries. Non-trivial = "
+    "(partition clause only), 8 % of the random histories with a repeated or restarting time stamp (partition clause "
+    "only) and adversarial drifts across periodic boundaries. Non-trivial = "
     "the history contains an appearance, a disappearance or an empty frame. Distinct = digest of "
     "the whole case."
 )
 ASSUMPTIONS = [
     "droplets are identified by (frame time, parameter bytes); generators make them unique per frame",
     "histories with a pair distance within 1e-9 of a radius sum or the cut-off are regenerated",
-    "stronger clauses (one per frame, gap-free) are asserted only when no two droplets of a frame overlap",
+    "stronger clauses (one per frame, gap-free, increasing track times) are asserted only when no two droplets of a "
+    "frame overlap and the time stamps of the time course increase",
 ]
 REQUIRED_MONITORS = {"post:no-loss": 500, "post:no-duplicate": 500, "post:gap-free": 100,
                      "invariant:DropletTrack": 500}
@@ -177,6 +179,20 @@ def gen(rng, kind, tier):
         else:
             h = tracking.adversarial_history(rng)
         if not tracking.has_knife_edge(h):
+            n = len(h["times"])
+            if kind in ("random", "overlapping") and n >= 2 and rng.random() < 0.08:
+                # time courses in which a stamp occurs twice: the final state recorded by the regular interrupt and
+                # again at the end of the run, or the data of a restarted run appended to the first one
+                ts = list(h["times"])
+                if rng.random() < 0.6:
+                    k = int(rng.integers(0, n - 1))
+                    ts[k + 1] = ts[k]
+                    if rng.random() < 0.3 and float(ts[k]).is_integer():
+                        ts[k + 1] = int(ts[k])
+                else:
+                    m = int(rng.integers(1, n))
+                    ts = ts[:m] + ts[:n - m] if n - m <= m else ts[:m] + (ts[:m] * n)[:n - m]
+                h["times"] = ts
             return h
     return None
 
